@@ -15,7 +15,9 @@ pub struct FsState { pub nodes: Map<PathV, Ent> }
 pub enum DetectOutcome { Error, Fail, Pass(Option<Option<Seq<char>>>) }    // plan: not provided / provided (serialised text, None = unserialisable)
 pub struct SbomV { pub format: int, pub data: Seq<u8> }
 pub enum BuildOutcome { Error, Pass { launch: Option<Option<Seq<char>>>, store: Option<Option<Seq<char>>>, build_sboms: Seq<SbomV>, launch_sboms: Seq<SbomV> } }
-pub enum Event { Detect(DetectOutcome, FsState), Build(BuildOutcome, FsState), OnError }
+// Layer(kind, decision): a call into a trait-API layer: 0 = existing_layer_strategy (0 keep, 1 recreate, 2 update), 1 = create, 2 = update,
+//   3 = migrate_incompatible_metadata (0 recreate, 1 replace metadata); decision -1 = the call-back returned an error
+pub enum Event { Detect(DetectOutcome, FsState), Build(BuildOutcome, FsState), OnError, Layer(int, int) }
 // fs0: the file system when the process started (ghost; nothing writes it)
 pub struct ProcState { pub argv: Seq<Seq<char>>, pub env: Map<Seq<char>, Seq<char>>, pub cwd: Option<PathV>, pub log: Seq<Event>, pub fs0: FsState }
 pub struct World { pub st: Ghost<FsState>, pub faults: Ghost<nat>, pub proc: Ghost<ProcState> }
